@@ -56,7 +56,7 @@ theorem bodyRequeue_eq (go) (key : Nat) (st : Status) (inc : Bool) (rec : Option
 
 theorem good_requeue {go} (hgo : GoOk go) {d key st inc rec deferred s}
     (hpre : Pre d s (.requeue key st inc rec deferred)) :
-    Good d (.requeue key st inc rec deferred) s (bodyRequeue go key st inc rec deferred s) := by
+    GoodO d (.requeue key st inc rec deferred) s (bodyRequeue go key st inc rec deferred s) := by
   obtain ⟨hw, hk, hd⟩ := hpre
   obtain ⟨q0, hq, hqs⟩ := query?_of_idx hw hk
   rw [bodyRequeue_eq go key st inc rec deferred s q0 hq]
@@ -71,20 +71,22 @@ theorem good_requeue {go} (hgo : GoOk go) {d key st inc rec deferred s}
   simp only
   split
   · split
-    · refine ⟨Wf.of_sk_eq rfl hw2, hd2, hs2, ?_⟩
+    · refine Or.inr ⟨Wf.of_sk_eq rfl hw2, hd2, hs2, ?_⟩
       exact post_requeue_of_step (xi := none) (d := d) hw2 hnl (StepS.refl _ _ _ _)
-    · have hg := hgo d (.sendQuery none key) s2 ⟨hw2, hk2, hd2⟩
-      exact ⟨hg.wf, hg.debt, hs2.trans hg.step, post_requeue_of_step hg.wf hnl hg.step⟩
+    · rcases hgo.2 d (.sendQuery none key) s2 ⟨hw2, hk2, hd2⟩ with hoof | hg
+      · exact Or.inl hoof
+      · exact Or.inr ⟨hg.wf, hg.debt, hs2.trans hg.step, post_requeue_of_step hg.wf hnl hg.step⟩
   · have hsk3 : ∀ es : Status, (s2.modQuery key fun q => { q with errorStatus := es }).sk = s2.sk :=
       fun es => sk_modQuery_same _ _ _ (fun _ => rfl)
     generalize (if ((s2.query? key).getD default).errorStatus == .ok then Status.timeout
       else ((s2.query? key).getD default).errorStatus) = es
     have h3 := hsk3 es
     generalize (s2.modQuery key fun q => { q with errorStatus := es }) = s3 at h3
-    have hg := hgo d (.endQuery none key es rec) s3
+    rcases hgo.2 d (.endQuery none key es rec) s3
       ⟨by rw [h3]; exact WfS.weaken_hole hw2,
-        by unfold Sk.Idx; rw [h3]; exact hk2, by rw [h3]; exact hd2⟩
-    refine ⟨hg.wf, hg.debt, ?_, ?_⟩
+        by unfold Sk.Idx; rw [h3]; exact hk2, by rw [h3]; exact hd2⟩ with hoof | hg
+    · exact Or.inl hoof
+    refine Or.inr ⟨hg.wf, hg.debt, ?_, ?_⟩
     · have := hg.step; rw [h3] at this; exact hs2.trans this
     · have := hg.step; rw [h3] at this
       exact post_requeue_of_step hg.wf hnl this
